@@ -683,6 +683,44 @@ theorem buildSchema_rejects_deadEnd_iff (spec : Spec) (hhead : HeadOk spec)
       obtain ⟨oe, _, hr2, _, h2⟩ := hround j hjl
       exact h2 (fun hdj => hmin j hj ⟨hjl, hjl, _, hr2, hdj⟩)
 
+/-- **acceptance, exactly**: `Schema(spec)` builds iff the checks before the loop pass, every node type passes its
+    round (no name clash, the parser accepts the content expression, the expression has no dead end, the `marks`
+    expression names known marks), and every `excludes` names known marks -/
+theorem buildSchema_accepts_iff (spec : Spec) :
+    (∃ S, buildSchema spec = .ok S) ↔
+      HeadOk spec ∧
+      (∀ n ∈ spec.nodes, (∀ m ∈ spec.marks, m.name ≠ n.name) ∧
+        (∃ oe, parseC (nameTable spec) n.content = .ok oe ∧ ¬ DeadEndSpec (contentRE oe) (specGen spec)) ∧
+        (∀ e, n.marks = some e → e ≠ "_" → e ≠ "" → ExprKnown spec.marks e)) ∧
+      (∀ m ∈ spec.marks, ∀ e, m.excludes = some e → e ≠ "" → ExprKnown spec.marks e) :=
+  buildSchema_ok_iff spec
+
+/-- … in terms of the specification alone (counts plain numbers): a spec is accepted iff its tables are in order,
+    `specParse` reads every content expression — it is an expression of the documented grammar, its names are
+    known and not mixed — and none has a dead end.  The last clause of C06 ("malformed expressions … are rejected
+    when the schema is built") with its converse -/
+theorem buildSchema_accepts_iff_spec (spec : Spec) (hplain : ∀ n ∈ spec.nodes, PlainNumbers n.content) :
+    (∃ S, buildSchema spec = .ok S) ↔
+      HeadOk spec ∧
+      (∀ n ∈ spec.nodes, (∀ m ∈ spec.marks, m.name ≠ n.name) ∧
+        (∃ r, specParse (nameTable spec) n.content = .ok r ∧ ¬ DeadEndSpec r (specGen spec)) ∧
+        (∀ e, n.marks = some e → e ≠ "_" → e ≠ "" → ExprKnown spec.marks e)) ∧
+      (∀ m ∈ spec.marks, ∀ e, m.excludes = some e → e ≠ "" → ExprKnown spec.marks e) := by
+  rw [buildSchema_ok_iff]
+  have key : ∀ n ∈ spec.nodes,
+      ((∃ oe, parseC (nameTable spec) n.content = .ok oe ∧ ¬ DeadEndSpec (contentRE oe) (specGen spec)) ↔
+        (∃ r, specParse (nameTable spec) n.content = .ok r ∧ ¬ DeadEndSpec r (specGen spec))) := by
+    intro n hn
+    rw [specParse_eq _ _ (hplain n hn)]
+    cases parseC (nameTable spec) n.content with
+    | error ce => simp [codeReading]
+    | ok oe => simp [codeReading]
+  constructor
+  · rintro ⟨h1, h2, h3⟩
+    exact ⟨h1, fun n hn => ⟨(h2 n hn).1, (key n hn).1 (h2 n hn).2.1, (h2 n hn).2.2⟩, h3⟩
+  · rintro ⟨h1, h2, h3⟩
+    exact ⟨h1, fun n hn => ⟨(h2 n hn).1, (key n hn).2 (h2 n hn).2.1, (h2 n hn).2.2⟩, h3⟩
+
 /-- **the spec-level dead-end search of op `c06` decides the specification whenever it answers**: over an alphabet
     that has the symbols of the expression, `hasDeadEnd? sigma gen r = some b` means `b` is `DeadEndSpec r gen` -/
 theorem hasDeadEnd?_decides (sigma : List Nat) (gen : Nat → Bool) (r : RE) (hs : ∀ b, b ∈ r.syms → b ∈ sigma)
@@ -738,5 +776,44 @@ example : (∃ r, specParse (nameTable exSpec) "br* img" = .ok r ∧ DeadEndSpec
     (∃ r, specParse (nameTable exSpec) "(br | img)+" = .ok r ∧ ¬ DeadEndSpec r (specGen exSpec)) :=
   ⟨⟨RE.seq (RE.star (RE.sym 3)) (RE.sym 4), by decide +kernel, by decide +kernel⟩,
    ⟨RE.plus (RE.alt (RE.sym 3) (RE.sym 4)), by decide +kernel, by decide +kernel⟩⟩
+
+/-! non-vacuity of the refusal theorems, on specs whose automata the kernel cannot evaluate (repetitions): the
+    theorems give the refusal from the *specification* — `specParse`, `DeadEndSpec` by `decide` — with no run of the
+    compiler -/
+
+private theorem exists_ok_of_toBool {ε α : Type} {x : Except ε α} (h : x.toBool = true) : ∃ r, x = .ok r := by
+  cases x with
+  | error e => cases h
+  | ok r => exact ⟨r, rfl⟩
+
+/-- `fig` with content `br* img` (a dead end) at the end of the example spec -/
+private def exDead : Spec :=
+  { exSpec with nodes := exSpec.nodes ++ [{ name := "fig", content := "br* img" }] }
+
+/-- everything else is in order, so `Schema(exDead)` gives the dead-end refusal: by `buildSchema_rejects_deadEnd_iff`
+    and `decide` on the specification -/
+example : buildSchema exDead = .error .deadEnd := by
+  have hnone : ∀ n ∈ exDead.nodes, n.marks = none := by decide
+  refine (buildSchema_rejects_deadEnd_iff exDead ⟨⟨0, by decide⟩, 2, by decide, by decide⟩ (by decide)
+    (fun n hn e he => by rw [hnone n hn] at he; cases he)
+    (fun i hi => exists_ok_of_toBool (by revert i; decide +kernel))).2 ?_
+  exact ⟨5, by decide, RE.seq (RE.star (RE.sym 3)) (RE.sym 4), by decide +kernel, by decide +kernel⟩
+
+/-- several things wrong at once: `doc` has an unknown name *and* an unclosed group in its content and an unknown
+    mark in `marks`, `fig` has a dead end, the mark excludes an unknown mark.  The first check that speaks is the
+    parser on `doc`, and its left-to-right reading meets the unknown name first -/
+private def exMany : Spec := {
+  nodes := [
+    { name := "doc", content := "p nosuch (", marks := some "nomark" },
+    { name := "p", content := "br", group := some "block" },
+    { name := "text", group := some "inline" },
+    { name := "br", inline := true, group := some "inline" },
+    { name := "img", inline := true, group := some "inline", attrs := [{ name := "src" }] },
+    { name := "fig", content := "img" }],
+  marks := [{ name := "em", excludes := some "nomark" }] }
+
+example : ∃ ce, buildSchema exMany = .error (.content ce) ∧ ce.toPErr = .unknownName :=
+  ((buildSchema_refusal_kind exMany ⟨⟨0, by decide⟩, 2, by decide, by decide⟩ 0 (by decide)
+    (fun j hj => absurd hj (Nat.not_lt_zero j))).2 (by decide) (by decide +kernel)).1 .unknownName (by decide +kernel)
 
 end PM.C06
